@@ -406,6 +406,7 @@ class Impl:
 
         self.RecPort = RecPort
         self.counter = 0
+        self.cleared_transforms = 0
 
     @classmethod
     def get(cls):
@@ -426,7 +427,9 @@ class Impl:
 
     async def make_port(self, d, queue_size=None):
         self.counter += 1
-        attrs = {'TYPE': d['type'], 'WRITABLE': bool(d['writable'])}
+        # the type is a run-time string (as for ports created from a JSON body / persisted data), never the very object of the
+        # TYPE_BOOLEAN / TYPE_NUMBER constants: code comparing types by identity shows
+        attrs = {'TYPE': json.loads(json.dumps(''.join(list(d['type'])))), 'WRITABLE': bool(d['writable'])}
         if queue_size:
             attrs['WRITE_VALUE_QUEUE_SIZE'] = queue_size
         for k in ('min', 'max', 'step'):
@@ -442,9 +445,18 @@ class Impl:
         if d['enabled']:
             await port.enable()
         if TRANSFORMS[d['transform']]:
+            if self.counter % 2 == 0:
+                await port.set_attr('transform_write', 'MUL($, 3)')      # replaced below: the declared transform is the last one set
             await port.set_attr('transform_write', TRANSFORMS[d['transform']])
             if port._transform_write is None:
                 raise RuntimeError('transform_write not set')
+        elif d['writable'] and self.counter % 2 == 0:
+            # a transform was set and then removed again (transform_write = ""): the port declares none, values go untransformed
+            await port.set_attr('transform_write', 'MUL($, 3)')
+            await port.set_attr('transform_write', '')
+            if await port.get_attr('transform_write') != '':
+                raise RuntimeError('transform_write not cleared')
+            self.cleared_transforms += 1
         return port
 
     async def drop_port(self, port):
@@ -584,6 +596,21 @@ class Impl:
             for r in rs:
                 r['written'] = []
                 r['delivery_mismatch'] = {'accepted_requests': len(accepted), 'driver_calls': [describe(c) for c in calls]}
+
+    async def run_fresh_concurrent(self, d, body_ok, body_bad):
+        """the very first two requests a port ever gets, overlapping in time: a value the definition accepts and one it
+        refuses, launched together on a fresh port (nothing about the port has been computed / memoised yet); each must be
+        answered as if it were alone"""
+        port = await self.make_port(d)
+        pid = port.get_id()
+        try:
+            info = {'last_read': None, 'step': 'fresh port: the first two requests it ever gets, launched together'}
+            tasks = [asyncio.create_task(self.one(port, pid, 'value', b, clear=False)) for b in (body_ok, body_bad)]
+            rs = list(await asyncio.gather(*tasks))
+            self._assign(rs, list(port.written))
+            return [(body_ok, rs[0], dict(info, request='first')), (body_bad, rs[1], dict(info, request='second'))]
+        finally:
+            await self.drop_port(port)
 
     async def run_queue_full(self, d, bodies, capacity=4, extra=2):
         """a port whose write queue holds `capacity` entries and whose driver write is blocked: one write enters the driver,
@@ -799,6 +826,11 @@ def run_plan(ctx, res, plan, tag, overlap_budget=10 ** 9):
             for body, r, info in rv:
                 if r['outcome'] == 'Accepted' and info.get('last_read') is None and body not in acc:
                     acc.append(body)
+            bad = [body for body, r, info in rv if r['outcome'] == 'EInvalid' and body[:1] in b'-0123456789'
+                   and isinstance(r['json'], (int, float)) and r['json'] == r['json'] and abs(r['json']) < 1e300]
+            if acc and bad and n_fresh[0] < overlap_budget and d['exists']:
+                n_fresh[0] += 1
+                rv = rv + await impl.run_fresh_concurrent(d, acc[0], bad[n_fresh[0] % len(bad)])
             if len(acc) >= 2 and n_overlap < overlap_budget and d['exists']:
                 n_overlap += 1
                 rv = rv + await impl.run_overlap(d, acc[0], acc[-1])
@@ -815,7 +847,7 @@ def run_plan(ctx, res, plan, tag, overlap_budget=10 ** 9):
             out.append((rv, rs))
         return out
 
-    plays, evicted = [], [0]
+    plays, evicted, n_fresh = [], [0], [0]
 
     t0 = time.time()
     results = asyncio.run(go())
@@ -835,6 +867,7 @@ def run_plan(ctx, res, plan, tag, overlap_budget=10 ** 9):
             bump('entry:value')
             bump('outcome:' + str(r['outcome']))
             bump('last-read-value:' + ('queue-full-scenario' if 'write queue' in info.get('step', '') else
+                                       'fresh-port-concurrent-first-requests' if 'fresh port' in info.get('step', '') else
                                        'none' if info.get('last_read') is None else
                                        'overlapping-writes' if 'request' in info else
                                        'equals-delivered' if 'step' in info else 'other'))
@@ -919,6 +952,7 @@ def run_plan(ctx, res, plan, tag, overlap_budget=10 ** 9):
                 d, case, r = pmeta[i]
                 res['violations'].append(violation('wrong-delivery', case, r, d))
     bump('queue-full-evicted-with-500', evicted[0])
+    dist['ports-with-transform-set-then-cleared'] = impl.cleared_transforms
     res['extra']['coq_wall_s'] = round(res['extra'].get('coq_wall_s', 0) + time.time() - t1, 2)
     bump('floats-checked-against-repr', len(fl))
     for i, (rc, lists, err) in enumerate(routs):
@@ -1042,7 +1076,8 @@ def build_plan(ctx, n_pairs, full=False):
         vals = values_for(d)
         k = min(len(vals), per + (3 if d['step'] else 0))
         chosen = rng.sample(vals, k)
-        for v in TRANSFORM_FAILS.get(d['transform'], []):
+        # always there: the two values of a boolean port; the in-domain values on which a partial transform fails
+        for v in ([True, False] if d['type'] == 'boolean' else []) + TRANSFORM_FAILS.get(d['transform'], []):
             if not any(_vkey(v) == _vkey(c) for c in chosen):
                 chosen.append(v)
         nseq = 1 if rng.random() < 0.6 else 0
